@@ -460,7 +460,11 @@ impl Sim {
         let can_request = pending_clients < 3;
         if n_workers < self.limits.max_workers {
             let boost = if n_workers == 0 { 6 } else { 1 };
-            let mut p = sub(c2, 3, palette::N_WORKER_PALETTE);
+            let mut p = if self.genv >= 1 {
+                sub(c2, 3, palette::N_WORKER_PALETTE_V1)
+            } else {
+                sub(c2, 3, palette::N_WORKER_PALETTE)
+            };
             if self.genv >= 1
                 && matches!(self.profile.as_str(), "placement2" | "steal2")
                 && sub(c2, 19, 4) == 0
